@@ -225,9 +225,14 @@ Definition flag (b : bool) : tree := L (if b then 1 else 0)%Z.
 (* scripted failures of the equilibrium *)
 Definition nan_cd (cd : scd) : bool :=
   match cd with CdX x _ _ => (x mod 7 =? 3)%Z | CdMu _ T => (T mod 5 =? 4)%Z end.
+(* scripted loss of the precipitate: like pycalphad's solver, the scripted one removes a composition set
+   whose phase is not stable from the list it was given *)
+Definition drop_cd (cd : scd) : bool :=
+  match cd with CdX x _ _ => (x mod 5 =? 1)%Z | CdMu _ _ => false end.
 Definition s_solve (cd : scd) (l : list scs) : tree * list scs :=
+  let kept := if drop_cd cd && Nat.leb 2 (length l) then filter (fun c => Nat.eqb (cs_ph c) 0) l else l in
   (N 1 [enc_cd cd; N 0 (map enc_cs l); flag (nan_cd cd)],
-   map (fun c => mkcs (cs_ph c) (cs_T c) (cs_g c) (N 2 [enc_cd cd; L (Z.of_nat (cs_ph c))])) l).
+   map (fun c => mkcs (cs_ph c) (cs_T c) (cs_g c) (N 2 [enc_cd cd; L (Z.of_nat (cs_ph c))])) kept).
 Definition s_naive (p : Ph) (T g : Z) : tree := N 3 [L (Z.of_nat p); L T; L g].
 Definition s_is_nan (r : tree) : bool :=
   match r with N _ kids => match last kids (L 0) with N 1%Z [] => true | _ => false end end.
@@ -250,25 +255,31 @@ Definition s_aval (c : scs) (r mu : tree) : tree := N 34 [enc_cs c; r; mu].
 Definition s_same (c : scs) (l : list scs) : bool :=
   match cs_y c with N 2%Z [N 11%Z [_; N T []]; _] => (T mod 5 =? 3)%Z | _ => false end.
 
+Definition s_cval (mu : tree) (cm cp : scs) : tree := N 35 [mu; enc_cs cm; enc_cs cp].
+
 Definition s_run1 := run1 (X := Z) Z.eqb s_cdT s_cdG CdX CdMu 0%Z 1%Z s_solve s_naive s_is_nan s_sample s_best
-                          s_global s_dval s_tval s_gval s_xval s_aval s_same.
+                          s_global s_dval s_tval s_gval s_xval s_aval s_same s_cval.
 
 Definition enc_assoc (l : list (Ph * list scs)) : list tree :=
   map (fun e => N (Z.of_nat (fst e)) (map enc_cs (snd e))) l.
-Definition enc_state (s : tstate Z Z tree tree) : tree :=
+Definition enc_state (s : tstate Z Z tree tree tree) : tree :=
   N 40 [N 41 (enc_assoc (df_cs s));
         N 42 (match mat_cs s with Some l => [N 0 (map enc_cs l)] | None => [] end);
         N 43 (map (fun e => N (Z.of_nat (fst e)) [L (fst (snd e)); snd (snd e)]) (pts s));
-        N 44 (enc_assoc (diff_cs s))].
+        N 44 (enc_assoc (diff_cs s));
+        N 45 (enc_assoc (curv_cs s));
+        N 46 (map (fun e => N (Z.of_nat (fst e)) [snd e]) (curv_out s))].
 Definition enc_answer (a : answer tree) : tree :=
   match a with
   | ADF None => N 50 []
   | ADF (Some (u, v)) => N 51 [u; v]
   | AVal v => N 52 [v]
+  | ACurv None => N 54 []
+  | ACurv (Some v) => N 55 [v]
   | ANone => N 53 []
   end.
 
-Fixpoint s_trace (o : obj Z Z tree tree) (qs : list (query Z Z)) : list (tree * tree) :=
+Fixpoint s_trace (o : obj Z Z tree tree tree) (qs : list (query Z Z)) : list (tree * tree) :=
   match qs with
   | [] => []
   | q :: r => let (o1, a) := s_run1 o q in (enc_answer a, enc_state (snd o1)) :: s_trace o1 r
